@@ -370,4 +370,69 @@ theorem triJacQuality_hasDerivAt (dq0 : V3 ℝ) (n0 n1 n2 : QNode ℝ) (mx : Mod
   rw [this]
   rfl
 
+/-! ### derivative of the epic tet quality: the combination is the formal derivative -/
+
+/-- on its smooth branch `ref_node_tet_epic_quality` returns `tetEpicSmooth` at the position of node 0 -/
+theorem tetEpicQuality_smooth (minVol : ℝ) (n0 n1 n2 n3 : QNode ℝ)
+    (hvol : minVol < tetVol n0.x n1.x n2.x n3.x)
+    (hdiv : Scalar.divisible
+      ((Real.sqrt (min (min (min (detOf n0.m) (detOf n1.m)) (detOf n2.m)) (detOf n3.m)) *
+          tetVol n0.x n1.x n2.x n3.x) ^ ((2 : ℝ) / 3))
+      (ratioGeometric n0.x n1.x n0.m n1.m ^ 2 + ratioGeometric n0.x n2.x n0.m n2.m ^ 2 +
+       ratioGeometric n0.x n3.x n0.m n3.m ^ 2 + ratioGeometric n1.x n2.x n1.m n2.m ^ 2 +
+       ratioGeometric n1.x n3.x n1.m n3.m ^ 2 + ratioGeometric n2.x n3.x n2.m n3.m ^ 2) = true) :
+    tetEpicQuality minVol n0 n1 n2 n3 = tetEpicSmooth n0 n1 n2 n3 n0.x := by
+  have hv : (tetVol n0.x n1.x n2.x n3.x <=. minVol) = false := (le_false_iff _ _).mpr hvol
+  rw [tetEpicQuality_eq]
+  unfold epicTail tetEpicSmooth
+  simp only [hv, Bool.false_eq_true, if_false, sqrt_eq, mul_eq, pow_eq, twoThirds_eq, div_eq, hdiv, if_true]
+
+/-- PARTIAL.  Full statement: the gradient returned by `ref_node_tet_epic_dquality_dnode0` is the derivative of
+    `tetEpicQuality` with respect to node 0.  Proved here: the volume part is exact (`tetVol_affine0`) and the
+    power / sum-of-squares / quotient combination coded in the C is the formal derivative, GIVEN that the three
+    edge-length gradients returned by `ref_node_dratio_dnode0` are the derivatives of `ref_node_ratio` along the line
+    (hypotheses `H1 H2 H3`).  Missing: `HasDerivAt` for `ratioGeometric` itself (logarithmic mean of the two end-point
+    lengths with its `< 1e-12` and `|r-1| < 1e-12` branches); that routine is tied bit for bit and its gradient is
+    compared with finite differences by stream `geom_kernels`. -/
+theorem tet_epic_dquality_hasDerivAt_partial (minVol : ℝ) (n0 n1 n2 n3 : QNode ℝ) (δ : V3 ℝ)
+    (hvol : minVol < tetVol n0.x n1.x n2.x n3.x)
+    (hdiv : Scalar.divisible
+      ((Real.sqrt (min (min (min (detOf n0.m) (detOf n1.m)) (detOf n2.m)) (detOf n3.m)) *
+          tetVol n0.x n1.x n2.x n3.x) ^ ((2 : ℝ) / 3))
+      (ratioGeometric n0.x n1.x n0.m n1.m ^ 2 + ratioGeometric n0.x n2.x n0.m n2.m ^ 2 +
+       ratioGeometric n0.x n3.x n0.m n3.m ^ 2 + ratioGeometric n1.x n2.x n1.m n2.m ^ 2 +
+       ratioGeometric n1.x n3.x n1.m n3.m ^ 2 + ratioGeometric n2.x n3.x n2.m n3.m ^ 2) = true)
+    (hvim : Real.sqrt (min (min (min (detOf n0.m) (detOf n1.m)) (detOf n2.m)) (detOf n3.m)) *
+          tetVol n0.x n1.x n2.x n3.x ≠ 0)
+    (H1 : HasDerivAt (fun t => ratioGeometric (line n0.x δ t) n1.x n0.m n1.m)
+            (vdot (dratioGeometric n0.x n1.x n0.m n1.m).2 δ) 0)
+    (H2 : HasDerivAt (fun t => ratioGeometric (line n0.x δ t) n2.x n0.m n2.m)
+            (vdot (dratioGeometric n0.x n2.x n0.m n2.m).2 δ) 0)
+    (H3 : HasDerivAt (fun t => ratioGeometric (line n0.x δ t) n3.x n0.m n3.m)
+            (vdot (dratioGeometric n0.x n3.x n0.m n3.m).2 δ) 0) :
+    HasDerivAt (fun t => tetEpicSmooth n0 n1 n2 n3 (line n0.x δ t))
+      (vdot (tetEpicDquality minVol n0 n1 n2 n3).2 δ) 0 := by
+  have hv : (tetVol n0.x n1.x n2.x n3.x <=. minVol) = false := (le_false_iff _ _).mpr hvol
+  have hden := divisible_ne_zero hdiv
+  have hV := tetVol_line n0.x n1.x n2.x n3.x δ
+  have hV0 : tetVol (line n0.x δ 0) n1.x n2.x n3.x = tetVol n0.x n1.x n2.x n3.x := by rw [line_zero]
+  have hD := hasDerivAt_sumsq _ _ _ _ _ _ (ratioGeometric n1.x n2.x n1.m n2.m ^ 2)
+      (ratioGeometric n1.x n3.x n1.m n3.m ^ 2) (ratioGeometric n2.x n3.x n2.m n3.m ^ 2) 0 H1 H2 H3
+  have key := hasDerivAt_meanRatio (c36 : ℝ)
+    (Real.sqrt (min (min (min (detOf n0.m) (detOf n1.m)) (detOf n2.m)) (detOf n3.m)))
+    (fun t => tetVol (line n0.x δ t) n1.x n2.x n3.x) _ _ _ 0 hV hD (by simpa only [hV0] using hvim)
+    (by simpa only [line_zero] using hden)
+  simp only [line_zero] at key
+  unfold tetEpicDquality
+  simp only [dratio_value, tetDvol_value, hv, Bool.false_eq_true, if_false, cmin_eq, sqrt_eq, mul_eq, pow_eq,
+    twoThirds_eq, negThird_eq, add_eq, div_eq, sub_eq, lit2_eq]
+  have hdiv' := hdiv
+  simp only [pow_two] at hdiv'
+  rw [if_pos hdiv']
+  refine HasDerivAt.congr_deriv key ?_
+  simp only [vdot]
+  field_simp
+  ring
+
+
 end Refine.Props.C15Quality
